@@ -1,1 +1,13 @@
-"""Machine-checkable trigger predicates of the known findings (see known_findings.json)."""
+"""Machine-checkable trigger predicates of the known findings (see known_findings.json).
+Each takes the violation record (property, leg, what, case, ...) and decides whether it is that finding."""
+
+
+def c06_bounds_invalid_cell(rec):
+    case = rec.get('case') or {}
+    return (rec['what'].startswith('bounds ') and case.get('family') in ('cf2d', 'shoc_simple')
+            and bool(case.get('invalid_cells')))
+
+
+def c06_bounds_invalid_face_ugrid(rec):
+    case = rec.get('case') or {}
+    return rec['what'].startswith('bounds ') and case.get('family') == 'ugrid' and bool(case.get('invalid_cells'))
